@@ -4,6 +4,7 @@ from . import common
 from .common import Report, EXIT_INCONCLUSIVE
 
 REGISTRY = {
+    'C01': ('verif.p_mc', 'run_c01'),
     'C12': ('verif.p_graph', 'run_c12'),
     'C13': ('verif.p_graph', 'run_c13'),
 }
